@@ -56,7 +56,8 @@ def jsonable(x, depth=0):
 
 
 class Ctx(object):
-    def __init__(self, prop, tier='quick', seed=0, replaying=False):
+    def __init__(self, prop, tier='quick', seed=0, replaying=False, silent=False):
+        self.silent = silent
         self.prop = prop
         self.tier = tier
         self.quick = tier == 'quick'
@@ -135,6 +136,9 @@ class Ctx(object):
                 sys.stdout.flush()
             return
         if fingerprint in self._viol:
+            return
+        if self.silent:
+            self._viol[fingerprint] = (what, None)
             return
         os.makedirs(os.path.join(OUT, 'replays'), exist_ok=True)
         h = hashlib.sha1((self.prop + fingerprint).encode()).hexdigest()[:10]
